@@ -88,7 +88,7 @@ func (m *M) SRandom(r int, data []byte, chunks []int) {
 	rand.Reader = sr
 	panicked, _ := catch(func() { m.S[r].Random() })
 	rand.Reader = saved
-	m.emit("SRandom", kv{"r", r + 1}, kv{"data", orEmpty(data)}, kv{"panic", panicked}, kv{"delivered", sr.delivered})
+	m.emit("SRandom", kv{"r", r + 1}, kv{"data", orEmpty(data)}, kv{"panic", panicked}, kv{"delivered", sr.delivered}, kv{"chunks", append([]int{}, chunks...)})
 }
 
 var chunkClasses = []string{"whole", "whole", "1+31", "31+1", "16+16", "bytes", "zero_reads", "random", "big"}
